@@ -350,9 +350,39 @@ def unreadable_case(rng, res, scheme=""):
                                   "impl": i})
 
 
+BACKSLASH_PATTERNS = [["lib"], ["m.txt"], ["/lib"], ["lib/"], ["lib/*"], ["*.pyc"], ["lib", "!lib/m.txt"]]
+
+
+def backslash_name_case(rng, res, no):
+    """A backslash is an ordinary character of a file name here. A file `lib\\m.txt` is ONE name in the recorded directory:
+    exclude patterns see that name (none of these patterns matches it), the recording has it - under the key in-toto
+    writes for it, `lib/m.txt`. (The general families leave such names out: two names may then share a key.)"""
+    pats = BACKSLASH_PATTERNS[no % len(BACKSLASH_PATTERNS)]
+    where = ["", "src/"][(no // len(BACKSLASH_PATTERNS)) % 2]
+    data = b"m %d\n" % rng.randrange(999)
+    d = tempfile.mkdtemp(prefix="verif-c10b-")
+    try:
+        os.makedirs(os.path.join(d, "src"))
+        open(os.path.join(d, where + "lib\\m.txt"), "wb").write(data)
+        open(os.path.join(d, "plain.txt"), "wb").write(b"p\n")
+        i = impl_record(d, None, ["."], pats, False, False, None, False)
+    finally:
+        shutil.rmtree(d, ignore_errors=True)
+    case = {"op": "record_backslash_name", "name": where + "lib\\m.txt", "patterns": pats}
+    want = [where + "lib/m.txt", T.sha(data)]
+    got = [list(kv) for kv in i.get("ok", [])] if "ok" in i else None
+    ok = got is not None and want in got and ["plain.txt", T.sha(b"p\n")] in got and len(got) == 2
+    res.case(dict(case, impl=i), True, ok, sample_cap=1)
+    res.count("backslash_name")
+    if not ok:
+        res.fail("oracle", case, {"why": "a file whose name contains a backslash, which no exclude pattern matches, is not in the "
+                                  "recording exactly once under its name", "impl": i, "expected_entry": want})
+
+
 def shard(seed, idx, n, tier):
     res = core.Result()
     rng = core.rng_for(seed, "c10", idx)
+    backslash_name_case(rng, res, idx)
     for _ in range(n):
         one_case(rng, res)
     for _ in range(3):
@@ -389,6 +419,8 @@ def run(tier, seed):
 def replay(case):
     if case.get("op") == "normpath":
         return {"impl": posixpath.normpath(case["path"]), "model": core.driver().call({"op": "normpath", "paths": [case["path"]]})}
+    if "request" not in case:
+        return {"case": case, "note": "an oracle on the implementation alone; the few files are named in the case"}
     return {"desc": case.get("desc"), "model": core.driver().call(case["request"]),
             "note": "the tree is regenerated from the seed; desc.tree lists it"}
 
